@@ -151,6 +151,24 @@ def run(ctx):
     spec = ctx.driver_sharded(lines, "spec")
     ctx.compare("scriptnum", lines, impl, model, spec)
     R.three_way(ctx, "scriptnum-use-sites", use_site_lines(ctx))
+    # the two lock-time opcodes read numbers of up to 5 bytes and compare them as decoded (no clamping to 32 bits): operands
+    # around and above 2^31 / 2^32 whose low bits the transaction satisfies, in the checker with a real transaction
+    from . import lib_sighash as LS
+    rnd = random.Random(ctx.seed * 18 + 5)
+    lk = []
+    for _ in range(60 if ctx.tier == "quick" else 3000):
+        tx = LS.rand_tx(rnd)
+        nin = rnd.randrange(len(tx.vin))
+        seq = tx.vin[nin][3]
+        low = seq & 0x40ffff
+        for hi in (1, 2, 0x40, 0x7f, 0x80, 0xff, 0x7fff):
+            for lo31 in (0, 1):
+                v = (hi << 32) | (lo31 << 31) | (rnd.choice((low, low, max(0, low - 1), low + 1, seq & 0x7fffffff, 5)) & 0x7fffffff)
+                if v < (1 << 39):
+                    lk.append(f"CHECKLOCK S {tx.hex()} {nin} {v}")
+        for v in (tx.locktime, (1 << 32) | (tx.locktime & 0xffffffff), (1 << 32) + 5, (1 << 31) + 5, (1 << 39) - 1, 0x7fffffff, 0x80000000, 0xffffffff):
+            lk.append(f"CHECKLOCK L {tx.hex()} {nin} {v}")
+    ctx.compare("locktime-use-sites", lk, ctx.harness_sharded(lk), ctx.driver_sharded(lk, "model"), ctx.driver_sharded(lk, "spec"), nontrivial=lambda c, im: im == "1")
     ll = literal_lines(ctx)
     ctx.compare("decimal-literals", ll, ctx.harness_sharded(ll), ctx.driver_sharded(ll, "model"), ctx.driver_sharded(ll, "spec"))
     sw = sweep_lines(ctx)
